@@ -106,8 +106,10 @@ def build_harness(name, vinfo, rc=True, interpose=False, extra='', libs='-lcrypt
         gen = os.path.join(vbuild.BUILD, 'gen')
         if not os.path.exists(os.path.join(gen, 'pi_blowfish.inc')):
             os.makedirs(gen, exist_ok=True)
-            subprocess.check_call([sys.executable, os.path.join(VERIF, 'bin', 'gen_pi.py'), os.path.join(gen, 'pi_blowfish.inc.tmp')])
-            os.rename(os.path.join(gen, 'pi_blowfish.inc.tmp'), os.path.join(gen, 'pi_blowfish.inc'))
+            import threading
+            tmp = os.path.join(gen, 'pi_blowfish.inc.%d.%d.tmp' % (os.getpid(), threading.get_ident()))
+            subprocess.check_call([sys.executable, os.path.join(VERIF, 'bin', 'gen_pi.py'), tmp])
+            os.rename(tmp, os.path.join(gen, 'pi_blowfish.inc'))
         if no_variant_include:
             cmd += ['-I' + HARNESS, '-I' + gen]   # client code: only the released <crypt.h> from the system include path
         else:
